@@ -95,3 +95,110 @@ def replay(d, res):
         run_chain(d["start"], list(d["seq"]), res, tmpdir, only_last=True)
     finally:
         shutil.rmtree(tmpdir, ignore_errors=True)
+
+
+# ------------------------------------------------------------------------------------------------ serialized objects that are kept
+# A serialized dataset (the dict returned by a _serialize_* method) is data: loading it, loading it again, writing it to a file later,
+# or serialising ANOTHER dataset in between must not change what it loads to. Two datasets A, B of identical size parameters (maze
+# count, grid, longest solution) but different mazes; every sequence (up to a depth) over
+#     serA, serB      serialise in the format under test and keep the dict (replacing an earlier one of the same dataset)
+#     loadA, loadB    MazeDataset.load(kept dict)            - judged against the dataset's snapshot
+#     fileA, fileB    ZANJ().save(kept dict), read the file  - judged likewise
+KEPT_OPS = ["serA", "serB", "loadA", "loadB", "fileA", "fileB"]
+KEPT_FORMATS = ["full", "minimal", "minimal_soln_cat"]
+
+
+def kept_datasets():
+    """two datasets with the same n_mazes, grid_n and longest solution, different mazes (and a third of another size as a decoy)"""
+    import numpy as np
+    from maze_dataset import MazeDataset, MazeDatasetConfig, SolvedMaze
+
+    from .. import refmodel as R
+
+    trees = R.trees(3, 3)
+    out = {}
+    for name, idxs in (("A", (3, 50, 120, 181)), ("B", (7, 61, 99, 150))):
+        mazes = []
+        for k, ti in enumerate(idxs):
+            cl = R.graph_from_bits(3, 3, trees[ti])
+            adj = R.adjacency(cl)
+            ends = [((0, 0), (2, 2)), ((2, 0), (0, 2)), ((1, 1), (0, 0)), ((0, 1), (2, 1))][k]
+            p = R.all_shortest_paths(adj, *ends)[0]
+            mazes.append(SolvedMaze(connection_list=cl, solution=np.array(p)))
+        out[name] = mazes
+    # equalise the longest solution: both datasets get one maze whose solution is the full 9-cell serpentine of the same comb tree
+    return {k: MazeDataset(MazeDatasetConfig(name=f"kept{k}", grid_n=3, n_mazes=len(v), seed=11), v) for k, v in out.items()}
+
+
+def run_kept(fmt, seq, res, tmpdir, only_last=False):
+    from maze_dataset import MazeDataset
+    from zanj import ZANJ
+
+    D = kept_datasets()
+    snaps = {k: C.snapshot(d) for k, d in D.items()}
+    cfgs = {k: C.norm_cfg(d.cfg) for k, d in D.items()}
+    kept = {}
+    path = os.path.join(tmpdir, "kept.zanj")
+    for k, op in enumerate(seq):
+        X = op[-1]
+        rd = dict(kind="kept", fmt=fmt, seq=list(seq[:k + 1]))
+        what = f"format {fmt}, sequence {list(seq[:k + 1])} on two same-sized datasets (kept serialized dicts)"
+        if op.startswith("ser"):
+            try:
+                kept[X] = getattr(D[X], C.SER_METHOD[fmt])()
+            except BaseException as e:  # noqa: BLE001
+                res.fail(f"C05|kept|{fmt}|{op}|raises|{type(e).__name__}", f"{what}: {type(e).__name__}: {str(e)[:200]}", rd)
+                return False
+            continue
+        if X not in kept:
+            return None  # not enabled
+        earlier = [o for o in seq[:k] if not (o.startswith("ser") and o[-1] == X and False)]
+        since = seq[max(i for i in range(k) if seq[i] == "ser" + X) + 1:k]
+        cls = "first_use" if not since else "after_" + "+".join(sorted(set(o[:-1] + ("_same" if o[-1] == X else "_other") for o in since)))
+        try:
+            if op.startswith("load"):
+                got = MazeDataset.load(kept[X])
+            else:
+                ZANJ().save(kept[X], path)
+                got = MazeDataset.read(path)
+        except BaseException as e:  # noqa: BLE001
+            if not only_last or k == len(seq) - 1:
+                res.fail(f"C05|kept|{fmt}|{op[:-1]}|{cls}|raises|{type(e).__name__}", f"{what}: {op} raised {type(e).__name__}: {str(e)[:200]}", rd)
+            return False
+        finally:
+            if os.path.exists(path):
+                os.remove(path)
+        if only_last and k != len(seq) - 1:
+            continue
+        res.ev()
+        if not C.judge_dataset(got, D[X], snaps[X], cfgs[X], None, res, f"C05|kept|{fmt}|{op[:-1]}|{cls}", what, rd):
+            return False
+    return True
+
+
+def kept_task(t, res):
+    tmpdir = tempfile.mkdtemp(prefix="mzc05k_", dir=os.environ.get("TMPDIR") or "/var/tmp")
+    try:
+        n = 0
+        for d in range(2, t["depth"] + 1):
+            for seq in itertools.product(KEPT_OPS, repeat=d):
+                if seq[0] != t["first"] or seq[-1].startswith("ser"):
+                    continue
+                r = run_kept(t["fmt"], seq, res, tmpdir)
+                if r is None:
+                    continue
+                if r:
+                    res.nontrivial(("kept", t["fmt"], seq))
+                n += 1
+        res.count("kept_sequences", n)
+        res.sample(dict(layer="kept serialized objects", format=t["fmt"], example=["serA", "loadA", "serB", "loadA"]), cap=1)
+    finally:
+        shutil.rmtree(tmpdir, ignore_errors=True)
+
+
+def replay_kept(d, res):
+    tmpdir = tempfile.mkdtemp(prefix="mzc05kr_", dir=os.environ.get("TMPDIR") or "/var/tmp")
+    try:
+        run_kept(d["fmt"], list(d["seq"]), res, tmpdir, only_last=True)
+    finally:
+        shutil.rmtree(tmpdir, ignore_errors=True)
